@@ -7,16 +7,19 @@ branch by branch, in the order of the `isinstance` tests:
     if isinstance(value, (str, int)):  return value
     if isinstance(value, dict):        return frozendict({k: freeze_value(v) for k, v in value.items()})
     if isinstance(value, set):         return frozenset(freeze_value(e) for e in value)
-    if isinstance(value, list):        return tuple(freeze_value(e) for e in value)
+    if isinstance(value, (list, tuple)):
+                                       return tuple(freeze_value(e) for e in value)
     return value
 
-`frozendict` (the pure-Python implementation installed here) is a subclass of `dict`, so a
-frozendict takes the `dict` branch (its values are frozen again); `frozenset` is not a
-`set` and `tuple` is not a `list`: they are returned as they are, *without* looking inside.
-Dictionary keys are never touched.  `other` stands for every other object (None, floats,
-…), treated as an immutable atom.
+(the `tuple` alternative of the last test is /repo fix 3900daf: tuples are entered, so a list
+placed inside a tuple is frozen too).  `frozendict` (the pure-Python implementation installed
+here) is a subclass of `dict`, so a frozendict takes the `dict` branch (its values are frozen
+again); `frozenset` is not a `set`: it is returned as it is, *without* looking inside — its
+elements are hashable, like dictionary keys, which are never touched either.  `other` stands
+for every other object (None, floats, …), treated as an immutable atom.
 -/
 import AutomataVerif.Model.Basic
+import AutomataVerif.Generated.ObjectProtocol
 
 namespace AV.VA
 open AV
@@ -44,8 +47,8 @@ def freeze : PyVal → PyVal
   | frozendict kvs => frozendict (freezeKVs kvs)     -- isinstance(frozendict(..), dict)
   | set xs => frozenset (freezeList xs)
   | list xs => tuple (freezeList xs)
+  | tuple xs => tuple (freezeList xs)                -- isinstance(value, (list, tuple))
   | frozenset xs => frozenset xs
-  | tuple xs => tuple xs
   | other t => other t
 /-- `freeze_value(e) for e in value`. -/
 def freezeList : List PyVal → List PyVal
@@ -79,10 +82,14 @@ def isFrozenKVs : List (PyVal × PyVal) → Bool
 end
 
 mutual
-/-- The values `freeze_value` is meant for: mutable containers may nest arbitrarily, but
-what sits inside a `tuple` or a `frozenset`, and every dictionary key / set element
-(hashable, hence immutable in Python), is already immutable.  A list inside a tuple is the
-excluded case: the code does not look inside tuples. -/
+/-- The values Python can build at all: every dictionary key and every element of a set /
+frozenset is *hashable*.  On this model a value is hashable iff it is `isFrozen` — `dict`,
+`set` and `list` objects are unhashable, a tuple / frozendict hashes its members / values
+(so `(1, [2])` and `frozendict({1: [2]})` are unhashable too), atoms are hashable.  Lists,
+tuples and the values of dicts / frozendicts may hold anything and nest arbitrarily.
+What is excluded (`{[1]: 2}`, `{[1]}`, `frozenset([[1]])`, `{(1, [2]): 3}` …) cannot occur:
+building such an object raises `TypeError: unhashable type` in Python before `freeze_value`
+could ever see it. -/
 def supported : PyVal → Bool
   | str _ => true
   | int _ => true
@@ -92,7 +99,7 @@ def supported : PyVal → Bool
   | set xs => isFrozenList xs
   | list xs => supportedList xs
   | frozenset xs => isFrozenList xs
-  | tuple xs => isFrozenList xs
+  | tuple xs => supportedList xs
 def supportedList : List PyVal → Bool
   | [] => true
   | x :: xs => supported x && supportedList xs
@@ -139,11 +146,40 @@ structure Inst where
   attrs : List (String × PyVal)
   deriving Repr
 
-/-- `Automaton.__setattr__`: raises unconditionally. -/
-def Inst.setattr (_o : Inst) (_name : String) (_v : PyVal) : Res Inst := .error (.py .attributeError)
+/-- What the source says about an attribute hook (`__setattr__` / `__delattr__`) of the automaton
+classes, read from the regenerated table `AV.Gen.Object.attrHooks` (every definition of the hook
+in `Automaton` or a class deriving from it, with the shape of its body). -/
+inductive HookShape
+  /-- defined by `Automaton` only, and its body is the single statement `raise AttributeError(...)` -/
+  | raisesAttributeError
+  /-- defined nowhere: `object.__setattr__` / `object.__delattr__` apply -/
+  | inherited
+  /-- anything else (a conditional raise, extra statements, an override in a subclass, …) -/
+  | unknown
+  deriving DecidableEq, Repr
 
-/-- `Automaton.__delattr__`: raises unconditionally. -/
-def Inst.delattr (_o : Inst) (_name : String) : Res Inst := .error (.py .attributeError)
+def hookShape (hook : String) : HookShape :=
+  match Gen.Object.attrHooks.filter (fun t => t.2.1 == hook) with
+  | [] => .inherited
+  | [(cls, _, shape)] =>
+    if cls == "Automaton" && shape == "raise AttributeError" then .raisesAttributeError else .unknown
+  | _ => .unknown
+
+/-- `obj.name = v`.  `Automaton.__setattr__` as the source has it: when (and only when) the
+regenerated shape of the hook is "the body is `raise AttributeError(...)`, no subclass overrides
+it", the assignment raises for every object, name and value.  In every other case the model
+makes no claim of protection: the attribute is rebound, as `object.__setattr__` would. -/
+def Inst.setattr (o : Inst) (name : String) (v : PyVal) : Res Inst :=
+  match hookShape "__setattr__" with
+  | .raisesAttributeError => .error (.py .attributeError)
+  | _ => .ok { o with attrs := ainsert name v o.attrs }
+
+/-- `del obj.name`; `Automaton.__delattr__`, read from the source in the same way. -/
+def Inst.delattr (o : Inst) (name : String) : Res Inst :=
+  match hookShape "__delattr__" with
+  | .raisesAttributeError => .error (.py .attributeError)
+  | _ => if ahas name o.attrs then .ok { o with attrs := o.attrs.filter (fun kv => kv.1 != name) }
+         else .error (.py .attributeError)
 
 /-- `Automaton.__init__(**kwargs)` storing loop: freeze unless `allow_mutable_automata`. -/
 def storeKwargs (allowMutable : Bool) (kwargs : List (String × PyVal)) : List (String × PyVal) :=
